@@ -98,6 +98,7 @@ type Spec struct {
 	Assumptions    []string
 	nexec          int
 	rtSeed         uint64
+	known          map[string]bool
 }
 
 type replayFile struct {
@@ -274,7 +275,7 @@ func (sp *Spec) execOnce(t *testing.T, s Schedule) *Outcome {
 	// arbitrary points) unless memory gets tight.
 	// Collections happen between runs only, at the harness' request (memory limit aside): a cycle running
 	// into a run scans and shrinks stacks at arbitrary points.
-	debug.SetMemoryLimit(3 << 30)
+	debug.SetMemoryLimit(1536 << 20)
 	debug.SetGCPercent(-1)
 	if sp.nexec == 0 {
 		runtime.GC() // completes whatever cycle process start-up began
@@ -449,6 +450,7 @@ func (sp *Spec) batch(t *testing.T) {
 	}
 	wantRunDigests := os.Getenv("VERIF_RUN_DIGESTS") == "1"
 	known := loadKnown(os.Getenv("VERIF_KNOWN"))
+	sp.known = known
 	maxViol := envInt("VERIF_MAX_VIOLATIONS", 3)
 
 	res := &WorkerResult{Prop: sp.Prop, World: sp.World, Tier: tier, Seed: seed, First: first,
@@ -467,7 +469,7 @@ func (sp *Spec) batch(t *testing.T) {
 			// which starts a fresh process for the next chunk
 			var ms runtime.MemStats
 			runtime.ReadMemStats(&ms)
-			if ms.HeapAlloc > 2<<30 {
+			if ms.HeapAlloc > 1<<30 {
 				res.StoppedEarly = fmt.Sprintf("heap %d MiB after %d runs", ms.HeapAlloc>>20, k)
 				break
 			}
@@ -605,6 +607,10 @@ func (sp *Spec) shrink(t *testing.T, s Schedule, out *Outcome) (Schedule, *Viola
 		budget--
 		o := sp.execOnce(t, c)
 		if o.Violation != nil && o.Violation.Prop == v.Prop && o.Violation.Oracle == v.Oracle {
+			if sp.known[o.Violation.Prop+"\x00"+o.Violation.Sig] && !sp.known[v.Prop+"\x00"+v.Sig] {
+				// a smaller schedule that fails as a recorded known finding is not a smaller form of this one
+				return false
+			}
 			best, bestV, bestOut = c, o.Violation, o
 			return true
 		}
